@@ -577,10 +577,10 @@ class Tol:
             amp = max(1.0, abs(op["s"]))
         if op and op["op"] == "al":
             amp = 4.0 * ratio      # scale correction multiplies the positions (and their error) by c
-        self.err = amp * (self.err + 256 * U * (self.n + 1) * self.mag)
+        self.err = amp * (self.err + 32 * U * (self.n + 1) * self.mag)
 
     def rot(self):
-        return 64 * U * (self.k + 1) * (self.n + 1)
+        return 8 * U * (self.k + 1) * (self.n + 1)
 
     def pos(self):
         return self.err
@@ -990,7 +990,7 @@ def check(ctx):
             "evo's sim3_scale(T)); rigid_preserved is proved for T = sim3(R,t,s) with that s, the cube root itself is not modelled",
             "selected ids (downsample / motion filter / crop), the Umeyama triple and the projected rotations are parameters of the "
             "operation obtained from evo (properties C11, C03, C14)",
-            "float rounding: reads are compared with the exact rational value within 64·2^-53·(steps+1)·(poses+1)·magnitude",
+            "float rounding: reads are compared with the exact rational value within a carried error bound (rotations 8·2^-53·(steps+1)·(poses+1); positions 32·2^-53·(poses+1)·largest coordinate added per step, amplified by scale factors)",
         ],
         assumptions=["constructor arguments are consistent (rigid matrices / unit quaternions, equal lengths, ascending stamps)",
                      "ids passed to reduce_to_ids are valid indices"])
